@@ -142,9 +142,12 @@ structure SymMap.IdsOK (sm : SymMap) : Prop where
 
 /-! ### loc validity -/
 
-/-- `(f, a, b)` is the range of a node or token of the tree of workspace file `f` -/
+/-- `a..b` is the range of a node or token of file `f`, or the inside of a quoted token (the name of a
+`def "name"`) -/
 def NodeLoc (ws : Workspace) (f a b : Nat) : Prop :=
-  f < ws.files.size ∧ ∃ t, Desc (ws.tree f) t ∧ t.start = a ∧ t.stop = b
+  f < ws.files.size ∧ ∃ t, Desc (ws.tree f) t ∧
+    ((t.start = a ∧ t.stop = b) ∨
+     (t.isToken = true ∧ t.start + 1 = a ∧ b + 1 = t.stop ∧ ∃ mid : List Char, t.text.toList = '"' :: mid ++ ['"']))
 
 def NodeLocR (ws : Workspace) (r : FileRange) : Prop := NodeLoc ws r.file r.start r.stop
 
@@ -529,7 +532,7 @@ theorem LocIn.ext {c0 c1 : IndexCtx} (he : Ext c0 c1) {loc : FileRange} (h : Loc
 /-- `loc` is the range of a token of the current file of `c0`, with text `nm` -/
 def TokIn (c0 : IndexCtx) (loc : FileRange) (nm : String) : Prop :=
   c0.fileTrace.head? = some loc.file ∧ ∃ t, Desc (c0.ws.tree loc.file) t ∧ t.isToken = true ∧
-    t.start = loc.start ∧ t.stop = loc.stop ∧ t.text = nm
+    t.start = loc.start ∧ t.stop = loc.stop ∧ t.text = nm ∧ IdTok (c0.ws.tree loc.file) t
 
 theorem TokIn.locIn {c0 : IndexCtx} {loc : FileRange} {nm : String} (h : TokIn c0 loc nm) : LocIn c0 loc := by
   obtain ⟨hf, t, hd, _, h1, h2, _⟩ := h
@@ -542,11 +545,11 @@ theorem TokIn.ext {c0 c1 : IndexCtx} (he : Ext c0 c1) {loc : FileRange} {nm : St
 
 theorem TokIn.tokAt {c0 c : IndexCtx} (hp : Post c0 c) {loc : FileRange} {nm : String} (h : TokIn c0 loc nm) :
     TokAt c.ws loc.toLoc nm := by
-  obtain ⟨hf, t, ht⟩ := h
+  obtain ⟨hf, t, hd, htok, hs, he, htx, hk⟩ := h
   have hmem : loc.file ∈ c.fileTrace := by
     rw [hp.ext.trace]
     exact List.mem_of_head? hf
-  exact ⟨hp.inv.trace _ hmem, t, by rw [hp.ext.ws]; exact ht⟩
+  exact ⟨hp.inv.trace _ hmem, t, by rw [hp.ext.ws]; exact hd, htok, Or.inl ⟨by rw [hp.ext.ws]; exact hk, hs, he, htx⟩⟩
 
 theorem TokIn.sameBase' {c c1 : IndexCtx} {loc : FileRange} {nm : String} (hws : c1.ws = c.ws)
     (htr : c1.fileTrace = c.fileTrace) (h : TokIn c loc nm) : TokIn c1 loc nm := by
@@ -569,24 +572,75 @@ theorem ScopeNm.grow {a b : SymMap} {s : Scope} (h : ScopeNm a s) (hok : ScopeOK
 
 theorem LocIn.nodeLoc {c0 c : IndexCtx} (hp : Post c0 c) {loc : FileRange} (h : LocIn c0 loc) :
     NodeLocR c.ws loc := by
-  obtain ⟨hf, t, ht⟩ := h
+  obtain ⟨hf, t, hd, ht⟩ := h
   have hmem : loc.file ∈ c.fileTrace := by
     rw [hp.ext.trace]
     exact List.mem_of_head? hf
-  exact ⟨hp.inv.trace _ hmem, t, by rw [hp.ext.ws]; exact ht⟩
+  exact ⟨hp.inv.trace _ hmem, t, by rw [hp.ext.ws]; exact hd, Or.inl ht⟩
 
 theorem TokIn.nodeLoc {c0 c : IndexCtx} (hp : Post c0 c) {loc : FileRange} {nm : String} (h : TokIn c0 loc nm) :
     NodeLocR c.ws loc := LocIn.nodeLoc hp h.locIn
 
 theorem RangeIn.nodeLoc {c0 c : IndexCtx} (hp : Post c0 c) {rg : Nat × Nat} (h : RangeIn c0 rg) {f : Nat}
     (hf : c.fileTrace.head? = some f) : NodeLoc c.ws f rg.1 rg.2 := by
-  obtain ⟨f', hf', t, ht⟩ := h
+  obtain ⟨f', hf', t, hd, ht⟩ := h
   rw [hp.ext.trace, hf'] at hf
   cases hf
   have hmem : f ∈ c.fileTrace := by
     rw [hp.ext.trace]
     exact List.mem_of_head? hf'
-  exact ⟨hp.inv.trace _ hmem, t, by rw [hp.ext.ws]; exact ht⟩
+  exact ⟨hp.inv.trace _ hmem, t, by rw [hp.ext.ws]; exact hd, Or.inl ht⟩
+
+/-- `loc` is the inside of the string literal `"nm"` of the current file of `c0` -/
+def StrIn (c0 : IndexCtx) (loc : FileRange) (nm : String) : Prop :=
+  c0.fileTrace.head? = some loc.file ∧ ∃ t, Desc (c0.ws.tree loc.file) t ∧ t.isToken = true ∧
+    t.start + 1 = loc.start ∧ loc.stop + 1 = t.stop ∧ t.text.toList = '"' :: nm.toList ++ ['"']
+
+theorem StrIn.ext {c0 c1 : IndexCtx} (he : Ext c0 c1) {loc : FileRange} {nm : String} (h : StrIn c0 loc nm) :
+    StrIn c1 loc nm := by
+  obtain ⟨hf, t, ht⟩ := h
+  exact ⟨by rw [he.trace]; exact hf, t, by rw [he.ws]; exact ht⟩
+
+theorem StrIn.tokAt {c0 c : IndexCtx} (hp : Post c0 c) {loc : FileRange} {nm : String} (h : StrIn c0 loc nm) :
+    TokAt c.ws loc.toLoc nm := by
+  obtain ⟨hf, t, hd, htok, hs, he, htx⟩ := h
+  have hmem : loc.file ∈ c.fileTrace := by
+    rw [hp.ext.trace]
+    exact List.mem_of_head? hf
+  exact ⟨hp.inv.trace _ hmem, t, by rw [hp.ext.ws]; exact hd, htok, Or.inr ⟨hs, he, htx⟩⟩
+
+theorem StrIn.nodeLoc {c0 c : IndexCtx} (hp : Post c0 c) {loc : FileRange} {nm : String} (h : StrIn c0 loc nm) :
+    NodeLocR c.ws loc := by
+  obtain ⟨hf, t, hd, htok, hs, he, htx⟩ := h
+  have hmem : loc.file ∈ c.fileTrace := by
+    rw [hp.ext.trace]
+    exact List.mem_of_head? hf
+  exact ⟨hp.inv.trace _ hmem, t, by rw [hp.ext.ws]; exact hd, Or.inr ⟨htok, hs, he, nm.toList, htx⟩⟩
+
+/-- the location of a name: an identifier token, or the inside of a string literal -/
+def NameIn (c0 : IndexCtx) (loc : FileRange) (nm : String) : Prop := TokIn c0 loc nm ∨ StrIn c0 loc nm
+
+theorem NameIn.head {c0 : IndexCtx} {loc : FileRange} {nm : String} (h : NameIn c0 loc nm) :
+    c0.fileTrace.head? = some loc.file := by
+  rcases h with h | h <;> exact h.1
+
+theorem NameIn.tokAt {c0 c : IndexCtx} (hp : Post c0 c) {loc : FileRange} {nm : String} (h : NameIn c0 loc nm) :
+    TokAt c.ws loc.toLoc nm := by
+  rcases h with h | h
+  · exact h.tokAt hp
+  · exact h.tokAt hp
+
+theorem NameIn.nodeLoc {c0 c : IndexCtx} (hp : Post c0 c) {loc : FileRange} {nm : String} (h : NameIn c0 loc nm) :
+    NodeLocR c.ws loc := by
+  rcases h with h | h
+  · exact h.nodeLoc hp
+  · exact h.nodeLoc hp
+
+theorem NameIn.ext {c0 c1 : IndexCtx} (he : Ext c0 c1) {loc : FileRange} {nm : String} (h : NameIn c0 loc nm) :
+    NameIn c1 loc nm := by
+  rcases h with h | h
+  · exact Or.inl (h.ext he)
+  · exact Or.inr (h.ext he)
 
 /-! ### fuel -/
 
